@@ -392,6 +392,26 @@ func c41TlsNegoFacts(id string) func(repo string) (string, error) {
 		}
 		fmt.Fprintf(&b, "\n/-- TLSServerRuleMap lower-cases the SNI (lookup) and the configured names (Update) before the map lookup;\n    false = both are used verbatim (case-sensitive lookup) -/\ndef sniRuleLookupNormalised : Bool := %v\n", lk)
 
+		// bfe_config/bfe_tls_conf/tls_rule_conf: the duplicate-name test of the rule-file loader compares lower-cased names?
+		confPkg, err := c41LoadPkg(repo, "bfe_config/bfe_tls_conf/tls_rule_conf")
+		if err != nil {
+			return "", err
+		}
+		csc := confPkg.fn("", "checkSniConf")
+		if csc == nil {
+			return "", fmt.Errorf("checkSniConf not found")
+		}
+		dupLower := false
+		confPkg.walk(csc, func(n ast.Node) {
+			if c, ok := n.(*ast.CallExpr); ok {
+				switch c41ExprString(c.Fun) {
+				case "strings.ToLower", "strings.EqualFold":
+					dupLower = true
+				}
+			}
+		})
+		fmt.Fprintf(&b, "\n/-- checkSniConf (rule-file loader) treats two SniConf names that differ only in letter case as duplicates -/\ndef sniConfDuplicateCheckFoldsCase : Bool := %v\n", dupLower)
+
 		// order of operations in readClientHello (helpers followed): the connection's server name is set before anything
 		// that looks at it through the Conn (ServerRule.Get, rule.NextProtos.Get, MultiCert.Get)
 		first, err := c41ServerNameFirst(tlsPkg, rch)
